@@ -83,10 +83,17 @@ func (match6Engine) Run(ctx *fw.Ctx, cs any) {
 	var ms []meta
 	var twins [][2]int // pairs of requests that differ in the value of the client identifier only
 	xid := uint32(rng.Intn(1 << 20))
-	addReq := func(d []byte, plainAt int) int {
-		src := fmt.Sprintf("2001:db8:c1::%x", 1+rng.Intn(60000))
+	forceSrc := ""
+	drawSrc := func() string {
 		if rng.Intn(2) == 0 {
-			src = fmt.Sprintf("fe80::%x", 1+rng.Intn(60000))
+			return fmt.Sprintf("fe80::%x", 1+rng.Intn(60000))
+		}
+		return fmt.Sprintf("2001:db8:c1::%x", 1+rng.Intn(60000))
+	}
+	addReq := func(d []byte, plainAt int) int {
+		src := drawSrc()
+		if forceSrc != "" {
+			src, forceSrc = forceSrc, ""
 		}
 		port := []int{546, 547, 1024 + rng.Intn(60000)}[rng.Intn(3)]
 		arr := []string{"ve0", "vf0"}[rng.Intn(2)]
@@ -159,6 +166,14 @@ func (match6Engine) Run(ctx *fw.Ctx, cs any) {
 						extra = append(extra, relayAgentOpts6(rng)...)
 						link := net.ParseIP(fmt.Sprintf("2001:db8:%x::%x", rng.Intn(65536), 1+rng.Intn(65535)))
 						peer := net.ParseIP(fmt.Sprintf("fe80::%x:%x", rng.Intn(65536), 1+rng.Intn(65535)))
+						if d == depth-1 && rng.Intn(3) == 0 {
+							// the outermost layer as a layer-2 relay writes it (RFC 6221: the switch wraps the client's
+							// message and leaves the IP header alone): peer-address = the datagram's own source, link-address
+							// unspecified (or, from other boxes, the same address again / a global one)
+							forceSrc = drawSrc()
+							peer = net.ParseIP(forceSrc)
+							link = []net.IP{net.IPv6unspecified, net.IPv6unspecified, peer, link}[rng.Intn(4)]
+						}
 						msg = pkt.Relay6(12, byte(d), link, peer, extra, msg)
 					}
 					addReq(msg, plain)
